@@ -893,12 +893,37 @@ def gen_float_values(tier, r):
     return out
 
 
+def toml_number(x):
+    """a number (not a string) as the value of a timeout key of halmos.toml"""
+    import halmos.config as hc
+
+    try:
+        d = hc.toml_parser().parse_dict({"global": {"solver-timeout-branching": x}})
+        return float(d["solver_timeout_branching"]).hex()
+    except ValueError:
+        return "REJECT"
+    except BaseException as e:  # noqa: BLE001
+        return f"EXC {type(e).__name__}"
+
+
+def impl_int(i):
+    return {"toml": toml_number(i)}
+
+
+def gen_int_values(tier, r):
+    vals = [0, 1, 2, 5, 999, 1000, 1001, 1500, 60000, -1, -5, 2 ** 53, 2 ** 53 + 1, 10 ** 20, 10 ** 23, 10 ** 308, 10 ** 309, -10 ** 309, 17976931348623157 * 10 ** 292]
+    for _ in range(60 if tier == "quick" else 3000):
+        v = r.randint(0, 10 ** r.randint(1, 30))
+        vals.append(-v if r.random() < 0.1 else v)
+    return sorted(set(vals))
+
+
 def impl_float(h):
     """ParseTimeout.unparse / parse and CPython's repr / float on one value"""
     import halmos.config as hc
 
     v = float.fromhex(h)
-    out = {"repr": repr(v)}
+    out = {"repr": repr(v), "toml": toml_number(v)}
     try:
         u = hc.ParseTimeout.unparse(v)
     except Exception as e:  # noqa: BLE001
@@ -961,14 +986,17 @@ def run(rep, tier):
     runner_cases = gen_runner_cases(tier, r)
     codec_cases = gen_codec_strings(tier, r)
     float_cases = gen_float_values(tier, r)
+    int_cases = gen_int_values(tier, r)
     with Pool(min(16, os.cpu_count() or 4)) as pool:
         a_stack = pool.map_async(impl_stack_case, stack_cases, chunksize=32)
         a_run = pool.map_async(impl_runner_case, runner_cases, chunksize=1)
         a_codec = pool.map_async(impl_codec, codec_cases, chunksize=128)
         a_float = pool.map_async(impl_float, float_cases, chunksize=64)
+        a_int = pool.map_async(impl_int, int_cases, chunksize=64)
         stack_impl = a_stack.get()
         codec_impl = a_codec.get()
         float_impl = a_float.get()
+        int_impl = a_int.get()
         runner_impl = a_run.get()
 
     # ---------------- X-stack
@@ -1104,7 +1132,8 @@ def run(rep, tier):
     fres = None
     if m is not None:
         encs = [f_enc(float.fromhex(h)) for h in float_cases]
-        fres = m.parallel_batch([("c18_timeout_unparse", e) for e in encs] + [("c18_float_repr", e) for e in encs])
+        fres = m.parallel_batch([("c18_timeout_unparse", e) for e in encs] + [("c18_float_repr", e) for e in encs]
+                                + [("c18_timeout_parse_float", e) for e in encs] + [("c18_timeout_parse_int", [i]) for i in int_cases])
     nfl = len(float_cases)
     for k, h in enumerate(float_cases):
         v = float.fromhex(h)
@@ -1129,6 +1158,21 @@ def run(rep, tier):
                 fail("broken-tie", f"timeout: unparse of the float {o['repr']} ({h}): model {mus!r}, implementation {o['unparse']!r}", case)
             if mr is None or U(mr) != o["repr"]:
                 fail("broken-tie", f"float model: repr of {h}: model {None if mr is None else U(mr)!r}, CPython {o['repr']!r}", case)
+            mt = fres[2 * nfl + k]
+            if num_differs(mt, o["toml"]):
+                fail("broken-tie", f"timeout: the float {o['repr']} as a number in halmos.toml: model {mt}, implementation {o['toml']}", case)
+        # a number in the file is a number of milliseconds (spec), and x / 1000 rounded once (model)
+        if o["toml"].startswith("EXC") or (o["toml"] != "REJECT" and v == v and abs(v) != math.inf and not close(o["toml"], Fraction(v) / 1000)):
+            fail("failing-input", f"timeout: the number {o['repr']} in halmos.toml is read as {o['toml']}, the documented meaning is {o['repr']} milliseconds", case, sig={"codec": "timeout", "defect": "toml-number"})
+    for k, i in enumerate(int_cases):
+        o = int_impl[k]
+        rep.count("toml_int", "negative" if i < 0 else "zero" if i == 0 else "<2^53" if i < 2 ** 53 else "big")
+        rep.case({"toml_int": i}, nontrivial=True)
+        case = {"tie": "X-float", "codec": "timeout", "toml_int": i, "implementation": o["toml"]}
+        if o["toml"] == "REJECT" or o["toml"].startswith("EXC") or not close(o["toml"], Fraction(i, 1000)):
+            fail("failing-input", f"timeout: the integer {i} in halmos.toml is read as {o['toml']}, the documented meaning is {i} milliseconds", case, sig={"codec": "timeout", "defect": "toml-number"})
+        if fres is not None and num_differs(fres[3 * nfl + k], o["toml"]):
+            fail("broken-tie", f"timeout: the integer {i} as a number in halmos.toml: model {fres[3 * nfl + k]}, implementation {o['toml']}", case)
     rep.coverage["traces_validated_against_impl"] = (len(stack_cases) + nfun + len(idx) + (nfl if fres is not None else 0)) if m is not None else 0
     return rep.finish(
         checker_cmd="make -C coq Props/C18.vo (coq_makefile, coqc 8.16.1) after regenerating coq/Gen/GenConfig.v, GenConfigTime.v, GenConfigMain.v from /repo/src/halmos/{config,utils,__main__}.py",
@@ -1138,8 +1182,18 @@ def run(rep, tier):
         rule="X-stack: random stacks of 1..9 layers (bottom optionally the real default_config()), sources 0..5 with many equal sources, random subsets of 14 representative options including falsy values (0, False, '', empty set), built with the real Config/with_overrides; observed: value_with_source, two attribute reads, resolved_solver_command for every option; non-trivial = height >= 2. "
              "X-runner: fabricated forge projects (1-3 contracts x 1-3 test functions, natspec with @custom:halmos in single/multi-line/multi-tag/mid-line placements and decoy tags, devdoc entries, halmos.toml, command line) run through the real _main/run_contract/run_tests with run_test replaced by a recorder; non-trivial = at least one annotation. "
              "X-codec: grammar-generated and malformed strings per codec (timeouts: decimals, scientific notation, the words float() knows, huge/tiny/negative magnitudes), all integer ms/s timeouts up to a bound; observed: parse (value or rejection), TomlParser.parse_dict, unparse, re-parse; compared with an independent regex/Fraction rendering of the documented grammar and, bit for bit, with the extracted model. "
+             "X-float also hands every value, and a list of integers (0, small, above 2^53, up to 1e309, negative), to TomlParser.parse_dict as a NUMBER (parse_time's int|float arm): spec = that many milliseconds, model = x/1000 rounded once, bit for bit. "
              "X-float: binary64 values handed to ParseTimeout.unparse directly (specials, subnormals, whole milliseconds and their neighbours, values whose product with 1000 is whole only after rounding, whole seconds and halves up to 1e17, magnitudes next to the overflow of value*1000 in both signs, random bit patterns, powers of two); observed: unparse (string or exception), re-parse, repr; the value must survive (same number / same infinity / nan again) and the model must give the same strings. distinct by hash of the case.",
     )
+
+
+def num_differs(mres, impl_hex):
+    """model result [0] | [1; tag; neg; k] against the implementation's float.hex() / REJECT"""
+    if mres is None:
+        return True
+    if impl_hex == "REJECT" or impl_hex.startswith("EXC"):
+        return mres != [0]
+    return mres != [1] + f_enc(float.fromhex(impl_hex))
 
 
 def survives(codec, parsed, reparsed):
